@@ -259,7 +259,7 @@ def contains_bool_or_ptr(t):
 class Lib:
     def __init__(self, r, nfuncs, o=None, special_names=True, aggregates=True, exotic=False):
         self.r, self.o = r, (o or {})
-        self.types_text = ["struct cbarg { int a; double b; };\n"]
+        self.types_text = ["struct cbarg { int a; double b; };\n"] + ["typedef %s cbfn%d(%s);\ntypedef %s (*cbptr%d)(%s);\n" % (cb[0], k, cb[1], cb[0], k, cb[1]) for k, cb in enumerate(CALLBACKS)]
         self.recs, self.enums, self.tds = [], [], []
         self.funcs = []      # dicts
         self.globals = []
@@ -341,7 +341,7 @@ class Lib:
         if x < 0.88:
             return {"k": "array2", "ty": Arr(Arr(S_INT, 3), 2)}
         if x < 0.97:
-            return {"k": "fnptr", "proto": r.randrange(len(CALLBACKS)), "null": r.random() < 0.2}
+            return {"k": "fnptr", "proto": r.randrange(len(CALLBACKS)), "null": r.random() < 0.2, "form": r.choice(["inline", "inline", "fn-typedef", "ptr-typedef"])}
         return {"k": "ptrptr", "ty": Ptr(Ptr(S_INT, False), False)}
 
     def fresh_name(self, i):
@@ -367,6 +367,9 @@ class Lib:
             f["ret"] = self.value_type()
         else:
             f["ret"] = "ptr"      # returns a pointer to the global slot
+        fp0 = [k for k, p in enumerate(f["params"]) if p["k"] == "fnptr" and p["proto"] == 0]
+        if fp0 and r.random() < 0.5:
+            f["ret"] = ("fnret", fp0[0], r.choice(["fn-typedef", "ptr-typedef"]))
         f["asm"] = None
         if self.special and r.random() < 0.12:
             f["asm"] = r.choice(["_%s" % re.sub(r"\W", "x", name), "renamed_%d" % i, "%s_" % re.sub(r"\W", "x", name)])
@@ -387,6 +390,10 @@ class Lib:
     # ---- C parameter declaration
     def pdecl(self, p, n):
         if p["k"] == "fnptr":
+            if p.get("form") == "fn-typedef":
+                return "cbfn%d *%s" % (p["proto"], n)      # pointer to a typedef'd FUNCTION type
+            if p.get("form") == "ptr-typedef":
+                return "cbptr%d %s" % (p["proto"], n)
             return Ptr(Fn(p["proto"]), False).decl(n)
         if p["k"] in ("array",):
             d = p["ty"].decl(n)
@@ -397,7 +404,10 @@ class Lib:
         ps = [self.pdecl(p, "p%d" % k if with_names else "") for k, p in enumerate(f["params"])]
         if f["variadic"]:
             ps.append("...")
-        ret = "void" if f["ret"] is None else ("int *" if f["ret"] == "ptr" else f["ret"].decl(""))
+        if isinstance(f["ret"], tuple):
+            ret = "cbfn0 *" if f["ret"][2] == "fn-typedef" else "cbptr0"
+        else:
+            ret = "void" if f["ret"] is None else ("int *" if f["ret"] == "ptr" else f["ret"].decl(""))
         s = "%s %s(%s)" % (ret, f["name"], ", ".join(ps) if ps else "void")
         return s
 
@@ -437,7 +447,9 @@ class Lib:
                           "p": "    F(va_arg(ap, void *) == (void *)&anchor ? 2 : 0);\n"}[c]
                 s += "    va_end(ap); }\n"
             s += "  last_h = h;\n"
-            if f["ret"] == "ptr":
+            if isinstance(f["ret"], tuple):
+                s += "  return p%d;\n" % f["ret"][1]
+            elif f["ret"] == "ptr":
                 s += "  ret_slot = (int)(h >> 7); return &ret_slot;\n"
             elif f["ret"] is not None:
                 s += "  { %s; memset(&r_, 0, sizeof r_);\n" % f["ret"].decl("r_")
@@ -665,7 +677,10 @@ class Lib:
         rn = rust_name(f["name"])
         ccall = "%s(%s)" % (f["name"], ", ".join(cargs))
         rcall = "%s(%s)" % (rn, ", ".join(rargs))
-        if f["ret"] is None:
+        if isinstance(f["ret"], tuple):
+            c += "    int (*r_)(int) = %s;\n    uint64_t h = 3; F(r_ ? r_(41) : -1);\n" % ccall
+            rs += "    let r_ = %s;\n    let mut h: u64 = 3; F!(h, match r_ { Some(g_) => g_(41), None => -1 });\n" % rcall
+        elif f["ret"] is None:
             c += "    %s;\n    uint64_t h = 3;\n" % ccall
             rs += "    %s;\n    let mut h: u64 = 3;\n" % rcall
         elif f["ret"] == "ptr":
